@@ -292,7 +292,14 @@ func Corpus(c *Ctx) []*FileSpec {
 			m.Field = append(m.Field, F(sprintf("n%d", n), n, Opt, k))
 		}
 		m.Field = append(m.Field, F("rep_big", 1<<27, Rep, "uint32"))
-		f.MessageType = append(f.MessageType, m)
+		// every boundary number once as a string and once as bytes (the length-delimited kinds have their own key code)
+		ms, mb := Msg("NumsStr"), Msg("NumsBytes")
+		for _, n := range []int32{1, 15, 16, 17, 2047, 2048, 1<<18 - 1, 1 << 18, 1<<25 - 1, 1 << 25, 1<<29 - 1} {
+			ms.Field = append(ms.Field, F(sprintf("s%d", n), n, Opt, "string"))
+			mb.Field = append(mb.Field, F(sprintf("b%d", n), n, Opt, "bytes"))
+		}
+		ms.Field = append(ms.Field, F("rep16", 1<<20, Rep, "string"))
+		f.MessageType = append(f.MessageType, m, ms, mb)
 		add("numbers", "field-number-boundaries", true, f)
 	}
 
@@ -352,6 +359,17 @@ func Corpus(c *Ctx) []*FileSpec {
 		item := Msg("Item", F("id", 1, Req, "int32"), F("tag", 2, Opt, "string"))
 		f.MessageType = append(f.MessageType, labels, holder, item)
 		add("reqlater", "required-only-in-later-messages", true, f)
+	}
+	{ // required fields that declare an explicit default (a default is what a getter returns for an UNSET field: the
+		// field is still required on the wire)
+		f := c.File("reqdefault", "proto2")
+		pkg := c.Pkg("reqdefault")
+		dflt := func(fd *FP, v string) *FP { fd.DefaultValue = proto.String(v); return fd }
+		tuning := Msg("Tuning", dflt(F("on", 1, Req, "bool"), "true"), F("x", 2, Opt, "int32"))
+		cfg := Msg("Cfg", F("id", 1, Req, "int32"), dflt(F("level", 2, Req, "int32"), "3"), dflt(F("mode", 3, Req, "string"), "auto"),
+			F("t", 4, Opt, FullName(pkg, "Tuning")), F("ts", 5, Rep, FullName(pkg, "Tuning")))
+		f.MessageType = append(f.MessageType, tuning, cfg)
+		add("reqdefault", "required-fields-with-explicit-defaults", true, f)
 	}
 	{ // ... and only in the nested type of the LAST message, after siblings with nested types
 		f := c.File("reqlast", "proto2")
